@@ -354,7 +354,7 @@ impl ProcfsHandle {
         let subpath = subpath.as_ref();
         let oflags = oflags.into();
 
-        self.do_open_follow(base, subpath, oflags).or_else(|err| {
+        self.do_open_follow(base, subpath, oflags, 0).or_else(|err| {
             if self.is_subset && err.kind() == ErrorKind::OsError(Some(libc::ENOENT)) {
                 // Same as in ProcfsHandle::open: the symlink might only exist
                 // on an unmasked procfs (/proc/mounts and /proc/net are not
@@ -363,7 +363,7 @@ impl ProcfsHandle {
                 // readlink probe and for the parent does not cover it.
                 match Self::new_unmasked() {
                     Ok(unmasked) if !unmasked.is_subset => {
-                        unmasked.do_open_follow(base, subpath, oflags)
+                        unmasked.do_open_follow(base, subpath, oflags, 0)
                     }
                     _ => Err(err),
                 }
@@ -378,6 +378,7 @@ impl ProcfsHandle {
         base: ProcfsBase,
         subpath: &Path,
         mut oflags: OpenFlags,
+        depth: usize,
     ) -> Result<File, Error> {
         // The final component is opened directly rather than through the
         // resolver, so we have to refuse creation flags here ourselves.
@@ -412,8 +413,8 @@ impl ProcfsHandle {
         // NOTE: There is technically a race here, but it relies the target path
         //       being a magic-link and then another thing being mounted on top.
         //       This is the same race as below.
-        match self.readlink(base, subpath) {
-            Ok(_) => {}
+        let link_target = match self.readlink(base, subpath) {
+            Ok(link_target) => link_target,
             // readlinkat(2) on something that is not a symlink (or a path that
             // does not exist) fails with ENOENT: not a symlink, do not follow.
             Err(err) if err.kind() == ErrorKind::OsError(Some(libc::ENOENT)) => {
@@ -438,7 +439,7 @@ impl ProcfsHandle {
             // back to an O_NOFOLLOW open here would, after a transient failure
             // (EMFILE, ENOMEM, ...), hand the caller the symlink itself.
             Err(err) => return Err(err),
-        }
+        };
 
         // Get a no-follow handle to the parent of the magic-link.
         let (parent, trailing) = utils::path_split(subpath)?;
@@ -446,6 +447,31 @@ impl ProcfsHandle {
             name: "path".into(),
             description: "proc_open_follow path has trailing slash".into(),
         })?;
+
+        // procfs also has ordinary symlinks (mounts -> self/mounts, net ->
+        // self/net, self -> $pid, thread-self -> $pid/task/$tid). If we let the
+        // kernel follow one of those, it walks the target without any of the
+        // checks the resolver does for every component -- a file bind-mounted
+        // on top of /proc/self/mounts (or a symlink mounted on /proc/self)
+        // would happily be followed and returned. Their targets are relative
+        // paths inside procfs, so resolve the target ourselves instead.
+        //
+        // Magic-links either have an absolute target or one that is not a path
+        // at all ("pipe:[1234]", "anon_inode:[eventfd]"), which does not exist
+        // inside procfs. Those are handled by the code below.
+        const MAX_PROCFS_SYMLINK_DEPTH: usize = 4;
+        if !link_target.is_absolute() && !oflags.contains(OpenFlags::O_NOFOLLOW) {
+            if depth >= MAX_PROCFS_SYMLINK_DEPTH {
+                Err(ErrorImpl::OsError {
+                    operation: "follow trailing procfs symlink".into(),
+                    source: IOError::from_raw_os_error(libc::ELOOP),
+                })?
+            }
+            match self.do_open_follow(base, &parent.join(&link_target), oflags, depth + 1) {
+                Err(err) if err.kind() == ErrorKind::OsError(Some(libc::ENOENT)) => {}
+                res => return res,
+            }
+        }
 
         let parent = self.open(base, parent, OpenFlags::O_PATH | OpenFlags::O_DIRECTORY)?;
 
